@@ -1225,18 +1225,36 @@ pub fn pristine_disk(data: &[u8], index: usize) -> Result<Disk, String> {
         .ok_or("short")?;
     if magic == disk::WOFF || magic == disk::WOF2 {
         use allsorts::tables::SfntVersion;
-        let fd = ReadScope::new(data)
-            .read::<FontData<'_>>()
-            .map_err(|e| format!("{:?}", e))?;
-        let p = fd.table_provider(index).map_err(|e| format!("{:?}", e))?;
+        // The harness relies on the library to unpack WOFF / WOFF2 containers of the corpus. On
+        // a thread of its own: whatever per-thread state a (seeded) change of the library keeps
+        // must not leak from the operations of an earlier run into the preparation of this one.
+        let unpacked: Result<(u32, Vec<(u32, Vec<u8>)>), String> = std::thread::scope(|sc| {
+            std::thread::Builder::new()
+                .stack_size(8 << 20)
+                .spawn_scoped(sc, || {
+                    let fd = ReadScope::new(data)
+                        .read::<FontData<'_>>()
+                        .map_err(|e| format!("{:?}", e))?;
+                    let p = fd.table_provider(index).map_err(|e| format!("{:?}", e))?;
+                    let mut tables = Vec::new();
+                    for t in p.table_tags().unwrap_or_default() {
+                        if let Ok(Some(d)) = p.table_data(t) {
+                            tables.push((t, d.into_owned()));
+                        }
+                    }
+                    Ok((p.sfnt_version(), tables))
+                })
+                .map_err(|e| format!("spawn: {}", e))?
+                .join()
+                .map_err(|_| "unpacking thread panicked".to_string())?
+        });
+        let (flavour, list) = unpacked?;
         let mut tables = BTreeMap::new();
-        for t in p.table_tags().unwrap_or_default() {
-            if let Ok(Some(d)) = p.table_data(t) {
-                tables.insert(t, Rc::new(d.into_owned()));
-            }
+        for (t, d) in list {
+            tables.insert(t, Rc::new(d));
         }
         Ok(Disk {
-            flavour: p.sfnt_version(),
+            flavour,
             tables,
             errs: BTreeMap::new(),
         })
